@@ -16,6 +16,7 @@ import itertools
 import operator
 
 import numpy as np
+import z3
 
 from symx import core
 from symx.graph import Runner, grid, layer_keys_ok, run_blocks
@@ -49,7 +50,7 @@ VIX = "dask_array.slicing._vindex"
 ARG = "dask_array.creation._arange"
 DB = "dask.blockwise"
 MT = "dask_array._materialize"
-MODS = [MT, "dask_array.core._blockwise_funcs", "dask_array.core._conversion", EX, BW, CU, RC, FA, IOB, SB, SU, "dask_array.slicing", CO, NC, TR, XP, SQ, BT, CC, SK, RD, RCM, SHF, VIX, ARG, "dask_array._overlap", "dask_array._map_blocks", "dask_array._chunk", "dask.layers", "dask_array.reductions._sliding_window", DB]
+MODS = [MT, "dask_array.core._blockwise_funcs", "dask_array.core._conversion", EX, BW, CU, RC, FA, IOB, SB, SU, "dask_array.slicing", CO, NC, TR, XP, SQ, BT, CC, SK, RD, RCM, SHF, VIX, ARG, "dask_array._overlap", "dask_array._map_blocks", "dask_array._chunk", "dask.layers", "dask_array.reductions._sliding_window", "dask_array.manipulation._reshape", DB]
 STUBS = SHIM_LIST + [
     "expression classes -> symx.nodes (real methods on cloned code; constructors/tokenize bypassed, structural names); the "
     "Array collection class -> subclass with cloned methods",
@@ -102,6 +103,8 @@ def W(E, key="catalog"):
               clone_classes=[(CO, "Array")])
     if E.symbolic and not isinstance(w.ns[SHF].get("np"), _ShuffleNp):
         w.ns[SHF]["np"] = _ShuffleNp()
+    # VIndexArray._layer plans with NumPy index arrays, all concrete: its `slice(...)` objects index real ndarrays
+    w.ns[VIX]["slice"] = slice
     w.space.reset()
     w.ns[MT]["_LOWER_CACHE"] = {}  # the process-wide lowering cache must not leak between paths / instances
     # unaligned operands are unified under 'coarse' here (no nonlinear cost model: sizes stay unbounded); the default
@@ -323,6 +326,50 @@ def p_sliding_sum(w, E, p, axis, keepdims=False):
     return Prog(out.expr, ref, p.dsk)
 
 
+def p_vindex(w, E, p, points):
+    """x.vindex[...] through the public accessor with an integer array on every axis named in `points`
+    ({axis: [entries]}; the entries are decision variables enumerated by forking -- the planner sorts and groups them with
+    NumPy array code -- and the indexed axes have concrete chunk sizes); full slices elsewhere.  vindex puts the points
+    axis first, whatever NumPy's placement rule says."""
+    nd = len(p.node.chunks)
+    key = tuple([int(v) for v in points[a]] if a in points else slice(None) for a in range(nd))
+    coll = w.fn(NC, "new_collection")(p.node)
+    out = coll.vindex[key]
+    rest = [a for a in range(nd) if a not in points]
+    n = max(len(v) for v in points.values())
+    X = p.ref
+    shape = (n,) + tuple(X.shape[a] for a in rest)
+
+    def at(idx):
+        pos = [None] * nd
+        for a in range(nd):
+            if a in points:
+                vals = [int(v) for v in points[a]]
+                e = z3.IntVal(vals[-1])
+                for j in range(len(vals) - 2, -1, -1):
+                    e = z3.If(idx[0] == j, z3.IntVal(vals[j]), e)
+                pos[a] = e
+            else:
+                pos[a] = idx[1 + rest.index(a)]
+        return X._at(tuple(pos))
+
+    return Prog(out.expr, SArr(shape, at), p.dsk)
+
+
+def _vindex_prog(w, E, kinds, npts, fixed=None):
+    """kinds per axis: 's' (one symbolic-size block... two blocks), or a tuple of concrete chunk sizes for an indexed axis"""
+    blocks = tuple(2 if k == "s" else len(k) for k in kinds)
+    src = source(w, E, "x", blocks, chunks=[None if k == "s" else tuple(k) for k in kinds])
+    points = {}
+    for a, k in enumerate(kinds):
+        if k == "s":
+            continue
+        size = sum(k)
+        points[a] = [(fixed or {}).get((a, j), None) for j in range(npts)]
+        points[a] = [int(E.int(f"pt{a}_{j}", 0, size - 1)) if v is None else v for j, v in enumerate(points[a])]
+    return p_vindex(w, E, src, points)
+
+
 def p_take(w, E, p, axis, index):
     """x[..., [i, j, ...], ...] through Array.__getitem__ (normalize_index -> slice_wrap_lists -> take -> Shuffle);
     the index values are concrete, the axis is long enough to hold them"""
@@ -423,6 +470,9 @@ def programs(tier):
     reg("concatenate([x2,y2],0)[a:b:-1]", lambda w, E: p_slice(w, p_concat(w, [source(w, E, "x", (2,)), source(w, E, "y", (2,))], 0), raw_index(E, ((1, 1, -1),))), 6)
     reg("x2x2.T+y1x1(rechunk inserted by lowering over a transpose)", lambda w, E: _add_T_coarse(w, E), 4)
     reg("sliding_window_view(x3,W,0).sum(-1)", lambda w, E: p_sliding_sum(w, E, source(w, E, "x", (3,)), 0), 12)
+    # point-wise indexing with two integer arrays (entries enumerated by forking; sizes of the other axes symbolic)
+    reg("x(2,1)x2.vindex[[p,q],:]... two arrays: x.vindex[[p0,p1],:,[q0,2]]", lambda w, E: _vindex_prog(w, E, ((2, 1), "s", (1, 2)), 2, {(2, 1): 2}), 9)
+    reg("x.vindex[:,[p0,1],:,[q0,q1]] (4-d, separated axes)", lambda w, E: _vindex_prog(w, E, ("s", (1, 1), "s", (2,)), 2, {(1, 1): 1}), 9)
     # nested-op fusion
     reg("transpose(transpose(x2x1x2,(1,2,0)),(0,2,1))", lambda w, E: p_transpose(w, p_transpose(w, source(w, E, "x", (2, 1, 2)), (1, 2, 0)), (0, 2, 1)), 3)
     reg("transpose(transpose(x2x2,(1,0)),(1,0))", lambda w, E: p_transpose(w, p_transpose(w, source(w, E, "x", (2, 2)), (1, 0)), (1, 0)), 2)
@@ -436,6 +486,7 @@ def programs(tier):
     reg("concatenate([x2x2,y2x1],1)[a:b,c:d]", lambda w, E: p_slice(w, _concat_axis1(w, E), raw_index(E, (F, F))), 8)
     reg("(x2x2+y2)[i,a:b](broadcast)", lambda w, E: p_slice(w, _add_broadcast(w, E, aligned=True), raw_index(E, ("i", F))), 5)
     reg("x2x2[a:b][c:d](fused slices)", lambda w, E: p_slice(w, p_slice(w, source(w, E, "x", (2, 2)), raw_index(E, (F,), "k")), raw_index(E, (F,), "m")), 6)
+    reg("x2[a::2][b:c](strided then offset)", lambda w, E: p_slice(w, p_slice(w, source(w, E, "x", (2,)), raw_index(E, ((1, 0, 2),), "k")), raw_index(E, (F,), "m")), 8)
     reg("rechunk(transpose(x2x2))", lambda w, E: _rechunk_over(w, E, p_transpose(w, source(w, E, "x", (2, 2)), (1, 0)), (2, 1)), 4)
     reg("rechunk(expand_dims(x2,(0,)))", lambda w, E: _rechunk_over(w, E, p_expand(w, source(w, E, "x", (2,)), (0,)), (1, 3)), 3)
     reg("rechunk(x2+y2)", lambda w, E: _rechunk_over(w, E, _add_aligned(w, E, (2,)), (3,)), 4)
@@ -444,6 +495,7 @@ def programs(tier):
     reg("rechunk(rechunk(x2->3)->2)", lambda w, E: _rechunk_over(w, E, _rechunk_prog(w, E, (2,), (3,)), (2,), "s"), 4)
     reg("rechunk(x3[a:b])", lambda w, E: _rechunk_over(w, E, p_slice(w, source(w, E, "x", (3,)), raw_index(E, (F,))), (2,)), 6)
     if not q:
+        reg("x3[a::2][b:c](strided then offset)", lambda w, E: p_slice(w, p_slice(w, source(w, E, "x", (3,)), raw_index(E, ((1, 0, 2),), "k")), raw_index(E, (F,), "m")), 30)
         reg("slice(x3x2)[a:b:2,::-1]", lambda w, E: p_slice(w, source(w, E, "x", (3, 2)), raw_index(E, ((1, 1, 2), (0, 0, -1)))), 6)
         reg("x3+y2(unaligned)", lambda w, E: _add_unaligned(w, E, (3,), (2,)), 6)
         reg("stack([x2x2,y2x2],2)", lambda w, E: _stack2d(w, E), 2)
@@ -557,6 +609,19 @@ def run_tree(E, low, chunks, label, check_shapes=False, check_keys=False):
         layer_keys_ok(E, dsk, low._name, tuple(len(c) for c in chunks), label=f"{label}-keys")
     whole, r = run_blocks(E, dsk, low._name, chunks, label=f"{label}-blocks", check_shapes=check_shapes)
     return whole, dsk, r
+
+
+def computed(E, w, m):
+    """what compute() hands back: the materialized tree under the repository's FinalizeComputeArray -- one task applying
+    `finalize` to the nested key list the root expression reports -- executed on the symbolic blocks"""
+    from symx.graph import Runner
+
+    fin = m.finalize_compute()
+    dsk = dict(_layers(m))
+    layer = fin._layer()
+    dsk.update(layer)
+    r = Runner(dsk)
+    return r.get(fin._name)
 
 
 def stages(E, w, node, want):
